@@ -1934,7 +1934,12 @@ func nonNilErrExpr(info *types.Info, e ast.Expr) bool {
 	case *ast.CompositeLit:
 		return true
 	case *ast.CallExpr:
-		return isCall_(info, x, "fmt.Errorf", "errors.New")
+		if isCall_(info, x, "fmt.Errorf", "errors.New") {
+			return true
+		}
+		// an error constructor of the module itself (cfgparser.NodeErr, parseContext.Err, config.NodeErr): every
+		// return of it is a constructed error
+		return alwaysNonNilErrFunc(callee(info, x), 0)
 	case *ast.Ident, *ast.SelectorExpr:
 		var id *ast.Ident
 		if s, isSel := x.(*ast.SelectorExpr); isSel {
@@ -1968,4 +1973,48 @@ func (f *Flow) RangeOfX(n ast.Node) *ast.RangeStmt {
 		return found == nil
 	})
 	return found
+}
+
+
+var nonNilFuncCache = map[*types.Func]bool{}
+
+// alwaysNonNilErrFunc: fn is a function of the analysed module with a single error result whose every return statement
+// returns a surely non-nil error expression (a constructor).
+func alwaysNonNilErrFunc(fn *types.Func, depth int) bool {
+	if fn == nil || theProg == nil || depth > 2 {
+		return false
+	}
+	if v, ok := nonNilFuncCache[fn]; ok {
+		return v
+	}
+	nonNilFuncCache[fn] = false
+	sig, _ := fn.Type().(*types.Signature)
+	if sig == nil || sig.Results().Len() != 1 || !isErrorType(sig.Results().At(0).Type()) {
+		return false
+	}
+	d := theProg.DeclOf(fn)
+	if d == nil || d.Decl.Body == nil {
+		return false
+	}
+	all, n := true, 0
+	inspectNoLit(d.Decl.Body, func(x ast.Node) bool {
+		if ret, ok := x.(*ast.ReturnStmt); ok {
+			n++
+			if len(ret.Results) != 1 {
+				all = false
+				return true
+			}
+			e := ast.Unparen(ret.Results[0])
+			if call, isCall := e.(*ast.CallExpr); isCall && !isCall_(d.Info(), call, "fmt.Errorf", "errors.New") {
+				if !alwaysNonNilErrFunc(callee(d.Info(), call), depth+1) {
+					all = false
+				}
+			} else if !nonNilErrExpr(d.Info(), e) {
+				all = false
+			}
+		}
+		return true
+	})
+	nonNilFuncCache[fn] = all && n > 0
+	return all && n > 0
 }
